@@ -631,3 +631,50 @@ def bilinear_patch(P, rep, rule="GRID.patch"):
                       witness="gwb-grid with grid_type sphere")
     else:
         rep.ok(rule, "lay_points: bilinear patch, partition of unity, corners and edges reproduced", F.loc, F.qn)
+
+
+def great_circle(P, rep, rule="EXPR.greatcircle"):
+    rep.rule(rule, "CoordinateSystems::Spherical::distance_between_points_at_same_depth(p1, p2), p_i = (R, lon_i, lat_i): the value is "
+                   "R*acos(clamp(c)) with c = sin(lat1) sin(lat2) + cos(lat1) cos(lat2) cos(lon1 - lon2), the cosine of the central angle "
+                   "(the callee spherical_to_cartesian_coordinates is evaluated with the arguments; trigonometric identity); the clamp is "
+                   "min(1, max(-1, .)), i.e. the identity on [-1, 1]")
+    F = P.func("WorldBuilder::CoordinateSystems::Spherical::distance_between_points_at_same_depth")
+    if len(F.params) != 2:
+        rep.unknown(rule, "distance_between_points_at_same_depth no longer takes two points")
+        return
+    R = sp.Symbol("R", positive=True)
+    l1, f1, l2, f2 = sp.symbols("lon1 lat1 lon2 lat2", real=True)
+    V = VecEval(P, F, env={F.params[0]: (R, l1, f1), F.params[1]: (R, l2, f2)},
+                inline=lambda qn: qn.endswith("spherical_to_cartesian_coordinates"))
+    try:
+        val = V.run_function(astq.stmts_of(F.body))
+    except AnalysisBroken as e:
+        rep.unknown(rule, "distance_between_points_at_same_depth: %s" % e)
+        return
+    if val is None:
+        rep.unknown(rule, "distance_between_points_at_same_depth: no returned value")
+        return
+    # val = R * acos(Min(1, Max(-1, c)))
+    acs = [a for a in val.atoms(sp.acos)]
+    ok = False
+    why = str(val)[:120]
+    if len(acs) == 1 and sp.simplify(val / acs[0] - R) == 0:
+        arg = acs[0].args[0]
+        inner = None
+        if isinstance(arg, sp.Min) and len(arg.args) == 2 and sp.Integer(1) in arg.args:
+            mx = [a for a in arg.args if a != 1][0]
+            if isinstance(mx, sp.Max) and len(mx.args) == 2 and sp.Integer(-1) in mx.args:
+                inner = [a for a in mx.args if a != -1][0]
+        if inner is None:
+            why = "the argument of acos is %s, not min(1, max(-1, c))" % str(arg)[:80]
+        else:
+            want = sp.sin(f1) * sp.sin(f2) + sp.cos(f1) * sp.cos(f2) * sp.cos(l1 - l2)
+            if sp.simplify(sp.expand_trig(sp.expand(inner - want))) == 0:
+                ok = True
+            else:
+                why = "the cosine of the central angle is %s" % str(sp.simplify(inner))[:100]
+    if ok:
+        rep.ok(rule, "same-depth distance = R*acos(clamp(sin lat1 sin lat2 + cos lat1 cos lat2 cos(lon1 - lon2)))", F.loc, F.qn)
+    else:
+        rep.violation(rule, "distance_between_points_at_same_depth: %s" % why, F.loc, F.qn, str(val)[:140], "expected R*acos(min(1, max(-1, cos of the central angle)))",
+                      key=rule, witness="two points 135 degrees apart on the sphere")
